@@ -52,6 +52,7 @@ func main() {
 	verbose := fs.Bool("v", false, "verbose")
 	dump := fs.String("dump", "", "dump SMT of obligations matching this regexp")
 	timeoutS := fs.Int("timeout", 0, "per-obligation timeout in seconds (default by tier)")
+	only := fs.String("only", "", "func mode: solve only the obligations matching this regexp")
 	fs.Parse(os.Args[2:])
 
 	wd, err := os.MkdirTemp("", "govc-*")
@@ -110,6 +111,16 @@ func main() {
 					fmt.Println("  assumes:", a)
 				}
 			}
+		}
+		if *only != "" {
+			re := regexp.MustCompile(*only)
+			var sel []*Obligation
+			for _, o := range obls {
+				if re.MatchString(o.Name) {
+					sel = append(sel, o)
+				}
+			}
+			obls = sel
 		}
 		solveAll(obls, to)
 		printObls(obls, true, *dump)
@@ -195,7 +206,7 @@ func printObls(obls []*Obligation, all bool, dump string) {
 					fmt.Println("   (", m, "inexpressible:", err, ")")
 					continue
 				}
-				f := fmt.Sprintf("/tmp/dump_%s_%s.smt2", sanitize(o.Name), m)
+				f := fmt.Sprintf("/tmp/dump_%s_%s.smt2", sanitizeFile(o.Name), m)
 				os.WriteFile(f, []byte(s), 0o644)
 				fmt.Println("   dumped", f)
 			}
